@@ -18,9 +18,14 @@ Routes(g) ==
   \cup (IF g.k = "f64" THEN {"float"} ELSE {})
   \cup (IF g.k = "string" THEN {"gostring"} ELSE {})
   \cup (IF g.k = "string" /\ Len(Decode(g.bytes)) <= 2 THEN {"strlit"} ELSE {})
-LeafCases == {[fam |-> "leaf", route |-> r, go |-> g] : g \in Leaves, r \in {"list1", "tuple1", "longlong", "long", "ulonglong",
-                                                             "ulong", "uintptr", "float", "gostring", "strlit"}}
-LeafSel == {c \in LeafCases : c.route \in Routes(c.go)}
+\* a []byte value is its len bytes; what lies behind them in the backing array is not part of the value.  Every []byte leaf
+\* is therefore also presented as a slice with spare capacity that holds other bytes: "spare" = a sub-slice b[i:j] of a
+\* longer array, "grown" = appended to an empty slice of capacity 16
+Forms(g) == IF g.k = "bytes" THEN {"exact", "spare", "grown"} ELSE {"exact"}
+LeafCases == {[fam |-> "leaf", route |-> r, go |-> g, form |-> f] :
+                 g \in Leaves, r \in {"list1", "tuple1", "longlong", "long", "ulonglong", "ulong", "uintptr", "float", "gostring", "strlit"},
+                 f \in {"exact", "spare", "grown"}}
+LeafSel == {c \in LeafCases : c.route \in Routes(c.go) /\ c.form \in Forms(c.go)}
 
 \* ---- nested cases: containers of depth <= 2
 I64Min == GoInt("i64", [neg |-> TRUE, m |-> P2(63)])
@@ -61,7 +66,7 @@ LawCallOrder == case.fam = "calls" =>
                                               /\ c.ret.items = c.recv
 
 Emit ==
-  CASE case.fam = "leaf"   -> PrintT(ToJson([fam |-> "leaf", route |-> case.route, go |-> case.go, py |-> ToPy(case.go),
+  CASE case.fam = "leaf"   -> PrintT(ToJson([fam |-> "leaf", route |-> case.route, form |-> case.form, go |-> case.go, py |-> ToPy(case.go),
                                              back |-> FromPy(case.go, ToPy(case.go))]))
     [] case.fam = "nested" -> PrintT(ToJson([fam |-> "nested", go |-> case.go, py |-> ToPy(case.go),
                                              back |-> FromPy(case.go, ToPy(case.go))]))
